@@ -1,5 +1,6 @@
 import GramModel.Lemmas.Print
 import GramModel.Lemmas.PrintDerives
+import GramModel.Lemmas.PrintLex
 
 /-!
 # C16 — printed terms read back as the same term (the printer side)
@@ -375,3 +376,172 @@ example : printTm exNm (.pi 3 false (lit (-1)) .int) = "-1 -> int".toList := by 
 example : printTm exNm (.letg .nil (.var 3 0)) = "x".toList := by decide
 
 end sentence
+
+/-! ## The printed text is tokenized back to the lexemes it was printed from (`Lemmas/PrintLex.lean`)
+
+The tokenizer half of the round trip.  The lexeme list `printItems nm t` is turned into a *rendering*
+of `Lemmas/LexerRender.lean` (no leading gap, after every lexeme one space or nothing, no final
+comment); every item is a lexeme of its kind (`IsLexeme`) and two adjacent lexemes that the printer
+does not separate by a space never fuse (`SepOK`): the printer omits the space only after `(` / `{`,
+before `)` / `}` / `;`, and between a `-` (negation, sign of a negative literal) and its operand, which
+starts with `(`, `_`, a keyword, a digit, a `-` or a name — never with `>`.  The render/tokenize law of
+C10 (`render_law`) then gives the token kinds.  **No input was found on which two printed tokens
+fuse.**
+
+`CharClass.PrintSane` is `Sane2` plus what the printer needs of the Unicode classifier, each clause
+true of Rust's `char::is_alphabetic` / `is_alphanumeric`:
+`kw_start` (`t i b f e` are alphabetic), `kw_cont` (`y p e n t o l r u a s f h` are alphanumeric),
+`space_cont` (`' '` is not alphanumeric), `digit_start` (an ASCII digit is not alphabetic),
+`closer_cont` (`)`, `}`, `;` are not alphanumeric). -/
+
+section lexing
+open PrintDerives PrintLex
+
+/-- Decimal digit strings (what `BigInt`'s `Display` / `intChars` prints for a non-negative literal)
+are read back by the tokenizer's digit loop as the same number: all characters are ASCII digits, the
+string is not empty, and `digitsValue` inverts `Nat.toDigits 10`. -/
+def C16_decimal_digits_stmt : Prop :=
+  ∀ n : Nat, (∀ c ∈ Nat.toDigits 10 n, isDigit c = true) ∧ Nat.toDigits 10 n ≠ [] ∧
+    digitsValue (Nat.toDigits 10 n) = n
+theorem C16_decimal_digits : C16_decimal_digits_stmt :=
+  fun n => ⟨toDigits_isDigit n, Nat.toDigits_ne_nil, digitsValue_toDigits n⟩
+
+/-- The lexeme list of the printer is a rendering in the sense of the render/tokenize law: its text
+is the printed text, every item is a lexeme of its kind, the gaps are single spaces, and no two
+adjacent lexemes without a space between them fuse. -/
+def C16_print_rendering_stmt : Prop :=
+  ∀ (cc : CharClass), cc.PrintSane → ∀ (nm : Name → List Char) (t : Tm),
+    (∀ x ∈ printedNames t, IsLexeme cc (nm x) (.identifier (nm x))) →
+    Rendering cc [] ((printItems nm t).map toLex) none ∧
+    renderText [] ((printItems nm t).map toLex) none = printTm nm t ∧
+    weave (lexFlags ((printItems nm t).map toLex)) = printKinds nm t
+theorem C16_print_rendering : C16_print_rendering_stmt := fun cc hs nm t hn =>
+  ⟨print_rendering hs nm t hn, by rw [renderText_toLex, ← printTm_eq_flatten], weave_toLex _⟩
+
+/-- **The printed text tokenizes to exactly the lexemes it was printed from.**  For every classifier
+satisfying `PrintSane`, every name table that maps each *printed* name of `t` (`printedNames`: the
+variables and the binders of lambdas, dependent function types and definitions) to the text of one
+identifier token — it starts with an identifier-start character that is not a symbol character,
+continues with identifier characters and is not a keyword, which is what the tokenizer guarantees
+for every name that came out of parsing — and every term `t`: `tokenize` of the printed text succeeds
+(no error, no panic) and the kinds of the tokens, payloads included (identifier texts, literal
+values), are `printKinds nm t`.  The hypothesis `noNegLit t` is **not** needed for this half (a
+negative literal `-5` is tokenized as `MINUS INTEGER_LITERAL`, which is what `printKinds` says; it is
+the grammar / the parser that then reads `f -5` as a difference, `C16_negative_literal_ambiguous`). -/
+def C16_print_tokenizes_stmt : Prop :=
+  ∀ (cc : CharClass), cc.PrintSane → ∀ (nm : Name → List Char) (t : Tm),
+    (∀ x ∈ printedNames t, IsLexeme cc (nm x) (.identifier (nm x))) →
+    ∃ ts, tokenize cc (printTm nm t) = .ok ts ∧ ts.map (·.kind) = printKinds nm t
+theorem C16_print_tokenizes : C16_print_tokenizes_stmt :=
+  fun _ hs nm t hn => print_tokenizes hs nm t hn
+
+/-- **The printed text is a sentence of the published grammar**: under the above and the two
+exclusions of `C16_print_derives` (no implicit non-dependent function type, no negative literal),
+the printed text tokenizes to a token sequence whose terminals derive from the start symbol `term`
+of `grammar.y`. -/
+def C16_printed_text_is_sentence_stmt : Prop :=
+  ∀ (cc : CharClass), cc.PrintSane → ∀ (nm : Name → List Char) (t : Tm),
+    (∀ x ∈ printedNames t, IsLexeme cc (nm x) (.identifier (nm x))) →
+    noImplicitArrow t = true → noNegLit t = true →
+    ∃ ts, tokenize cc (printTm nm t) = .ok ts ∧
+      Derives Generated.grammarProductions "term" (ts.map (fun tk => kindTerminal tk.kind))
+theorem C16_printed_text_is_sentence : C16_printed_text_is_sentence_stmt :=
+  fun _ hs nm t hn h1 h2 => printed_text_is_sentence hs nm t hn h1 h2
+
+/-! ### Non-vacuity -/
+
+/-- ASCII classifier: letters `a`–`z`, digits, blank / line feed / tab -/
+def C16_cc : CharClass :=
+  { isAlpha := fun c => ('a' ≤ c ∧ c ≤ 'z')
+    isAlnum := fun c => ('a' ≤ c ∧ c ≤ 'z') || ('0' ≤ c ∧ c ≤ '9')
+    isWs := fun c => c == ' ' || c == '\n' || c == '\t'
+    graphemeEnd := fun p => p + 1 }
+
+theorem C16_cc_printSane : C16_cc.PrintSane :=
+  { hash_plain := by decide, nl_plain := by decide, space_ws := by decide, tab_ws := by decide,
+    hash_cont := by decide, nl_cont := by decide,
+    kw_start := by decide, kw_cont := by decide, space_cont := by decide,
+    digit_start := by
+      intro c h
+      simp only [isDigit, decide_eq_true_eq] at h
+      simp only [C16_cc, decide_eq_false_iff_not, not_and]
+      intro h1
+      exact absurd (Char.le_trans h1 h.2) (by decide),
+    closer_cont := by decide }
+
+/-- `(x : (y : _ = int; y)) => x` -/
+private def exLam : Tm := .lam 3 false (.letg (.cons 4 (.hole 0 0) .int .nil) (.var 4 0)) (.var 3 0)
+/-- `f (g x) y` -/
+private def exApp : Tm := .app (.app (.var 1 2) (.app (.var 2 1) (.var 3 0))) (.var 4 3)
+/-- `(x : type) -> if true then x else int` -/
+private def exPi : Tm := .pi 3 false .type (.ite .tt (.var 3 0) .int)
+/-- `y : int = 12; ((-y) + 305) <= y` -/
+private def exLet : Tm :=
+  .letg (.cons 4 .int (lit 12) .nil) (.bin .le (.bin .sum (.neg (.var 4 0)) (lit 305)) (.var 4 0))
+/-- `{x : type} -> (f x -> {g -7}) -> --7`: curly binder, an arrow with a parenthesised domain, an
+implicit non-dependent arrow, negative literals directly after `{`, `-` and a space -/
+private def exNeg : Tm :=
+  .pi 3 true .type (.pi 0 false (.pi 0 false (.app (.var 1 1) (.var 3 0)) (.pi 0 true (.app (.var 2 2) (lit (-7))) (.neg (lit (-7)))))
+    (.neg (lit (-7))))
+
+example : printTm exNm exLam = "(x : (y : _ = int; y)) => x".toList := by decide
+example : printTm exNm exApp = "f (g x) y".toList := by decide
+example : printTm exNm exPi = "(x : type) -> if true then x else int".toList := by decide
+example : printTm exNm exLet = "y : int = 12; ((-y) + 305) <= y".toList := by decide
+example : printTm exNm exNeg = "{x : type} -> (f x -> {g -7} -> --7) -> --7".toList := by decide
+
+-- the hypothesis on names, discharged by evaluation (via the Boolean lexeme check of C10)
+private theorem exNames (t : Tm)
+    (h : ∀ x ∈ printedNames t, isLexemeB C16_cc (exNm x) (.identifier (exNm x)) = true) :
+    ∀ x ∈ printedNames t, IsLexeme C16_cc (exNm x) (.identifier (exNm x)) :=
+  fun x hx => isLexemeB_sound (h x hx)
+example : printedNames exLam = [3, 4, 4, 3] := by decide
+example : printedNames exNeg = [3, 1, 3, 2] := by decide  -- the binders of the three arrows are not printed
+
+-- both sides of `C16_print_tokenizes`, evaluated
+private def kindsOfResult : LexResult → Option (List TokKind)
+  | .ok ts => some (ts.map (·.kind))
+  | _ => none
+example : kindsOfResult (tokenize C16_cc (printTm exNm exLam)) = some (printKinds exNm exLam) := by decide
+example : kindsOfResult (tokenize C16_cc (printTm exNm exApp)) = some (printKinds exNm exApp) := by decide
+example : kindsOfResult (tokenize C16_cc (printTm exNm exPi)) = some (printKinds exNm exPi) := by decide
+example : kindsOfResult (tokenize C16_cc (printTm exNm exLet)) = some (printKinds exNm exLet) := by decide
+example : kindsOfResult (tokenize C16_cc (printTm exNm exNeg)) = some (printKinds exNm exNeg) := by
+  decide +kernel
+example : printKinds exNm exLet =
+    [.identifier ['y'], .colon, .integer, .equals, .integerLiteral 12, .terminatorSemicolon,
+     .leftParen, .leftParen, .minus, .identifier ['y'], .rightParen, .plus, .integerLiteral 305,
+     .rightParen, .lessThanOrEqualTo, .identifier ['y']] := by decide
+
+-- the theorems instantiated: all hypotheses hold together
+example : ∃ ts, tokenize C16_cc (printTm exNm exLam) = .ok ts ∧ ts.map (·.kind) = printKinds exNm exLam :=
+  C16_print_tokenizes C16_cc C16_cc_printSane exNm exLam (exNames _ (by decide))
+example : ∃ ts, tokenize C16_cc (printTm exNm exNeg) = .ok ts ∧ ts.map (·.kind) = printKinds exNm exNeg :=
+  C16_print_tokenizes C16_cc C16_cc_printSane exNm exNeg (exNames _ (by decide))
+example : ∃ ts, tokenize C16_cc (printTm exNm exApp) = .ok ts ∧
+    Derives Generated.grammarProductions "term" (ts.map (fun tk => kindTerminal tk.kind)) :=
+  C16_printed_text_is_sentence C16_cc C16_cc_printSane exNm exApp (exNames _ (by decide))
+    (by decide) (by decide)
+example : ∃ ts, tokenize C16_cc (printTm exNm exPi) = .ok ts ∧
+    Derives Generated.grammarProductions "term" (ts.map (fun tk => kindTerminal tk.kind)) :=
+  C16_printed_text_is_sentence C16_cc C16_cc_printSane exNm exPi (exNames _ (by decide))
+    (by decide) (by decide)
+example : ∃ ts, tokenize C16_cc (printTm exNm exLet) = .ok ts ∧
+    Derives Generated.grammarProductions "term" (ts.map (fun tk => kindTerminal tk.kind)) :=
+  C16_printed_text_is_sentence C16_cc C16_cc_printSane exNm exLet (exNames _ (by decide))
+    (by decide) (by decide)
+example : Rendering C16_cc [] ((printItems exNm exLam).map toLex) none :=
+  (C16_print_rendering C16_cc C16_cc_printSane exNm exLam (exNames _ (by decide))).1
+example : (∀ c ∈ Nat.toDigits 10 305, isDigit c = true) ∧ digitsValue (Nat.toDigits 10 305) = 305 := by
+  decide
+
+-- the hypotheses are needed: a name that is a keyword, or not a word, is not read back as printed …
+example : kindsOfResult (tokenize C16_cc (printTm (fun _ => ['i', 'f']) (.var 0 0))) ≠
+    some (printKinds (fun _ => ['i', 'f']) (.var 0 0)) := by decide
+example : kindsOfResult (tokenize C16_cc (printTm (fun _ => ['x', '>']) (.var 0 0))) ≠
+    some (printKinds (fun _ => ['x', '>']) (.var 0 0)) := by decide
+-- … and `closer_cont`: were `)` a word character, `(g x)` would end with the identifier `x)`
+private def badCc : CharClass := { C16_cc with isAlnum := fun c => C16_cc.isAlnum c || c == ')' }
+example : kindsOfResult (tokenize badCc (printTm exNm exApp)) ≠ some (printKinds exNm exApp) := by decide
+
+end lexing
